@@ -7,12 +7,12 @@ ALL = ["C%02d" % i for i in range(1, 21)]
 CHECKS = {
  "C01": dict(
    technique="TLA+ spec PathInterp/PathLex model-checked by TLC; every reachable state (= command history) replayed into Path(d) and compared segment-wise",
-   text="TLC enumerates every grammar-conforming behaviour of the path-data interpreter specification up to the command bound (all 20 letters, implicit repetition, completing z) and every short string of the number grammar; each behaviour's expected segment list comes from the TLA+ spec and is compared exactly with what the real parser builds. Exhaustive inside the bound, nothing outside it.",
+   text="TLC enumerates every grammar-conforming behaviour of the path-data interpreter specification up to the command bound (all 20 letters, implicit repetition, completing z) and every short string of the number grammar; each behaviour's expected segment list comes from the TLA+ spec and is compared exactly with what the real parser builds. Exhaustive inside the bound, nothing outside it. Also TLC -simulate behaviours of 8 commands, and the same data through Path.extend(str) / Path.append(str).",
    note="Trusted: TLC, the transcription of SVG 8.3/9.3 into PathInterp.tla and PathLex.tla, the ~150-line projection/spelling code. Arc arguments are compared through the library's Arc constructor (C05 owns its meaning). Integer coordinates only.",
    design="5/C01"),
  "C09": dict(
    technique="TLA+ total token machine PathTok (over PathInterp) model-checked by TLC with single-token fault injection; final states replayed into Path.parse",
-   text="TLC explores every conforming behaviour of <= MaxCmds commands, injects every single-token fault (truncate/delete/duplicate/replace/insert/drop leading move) and runs the total token-level parser specification, which defines status and retained segments for ANY tape; deadlock freedom, Frozen and AppendOnly are checked on the spec. Every distinct tape is spelled and fed to the real parser: exception type, retained prefix, numeric soundness, follow-up operations, independence from previously parsed (poisoned) data, and time on 1e5-command inputs.",
+   text="TLC explores every conforming behaviour of <= MaxCmds commands, injects every single-token fault (truncate/delete/duplicate/replace/insert/drop leading move) and runs the total token-level parser specification, which defines status and retained segments for ANY tape; deadlock freedom, Frozen and AppendOnly are checked on the spec. Every distinct tape is spelled and fed to the real parser: exception type, retained prefix, numeric soundness, follow-up operations, independence from previously parsed (poisoned) data, and time on 1e5-command inputs. Also conforming data cut at every character position, TLC -simulate tapes of 4-6 commands with every single-token fault, and the other string entry points (insert, append, extend, item assignment, +=, +, reflected +).",
    note="Trusted: TLC, PathTok.tla's reading of 'longest valid prefix', spelling table for junk tokens. Lenient extra segments beyond the first error are accepted if numerically sound. Promptness is a generous wall-clock bound, not a complexity proof.",
    design="5/C09"),
  "C17": dict(
@@ -27,7 +27,7 @@ CHECKS = {
    design="5/C16"),
  "C07": dict(
    technique="TLA+ writer spec PathWrite with the law Interp(Write(p,relative,smooth)) = p model-checked by TLC over PathInterp behaviours (plus adversarial stale-smooth cases and an arc family); each state written by the real d()/str()/Subpath.d() in 9 option pairs, re-parsed and compared with the spec's segments",
-   text="TLC checks the round-trip law on the writer/interpreter design for every behaviour of the bounded model and supplies the cases: behaviours with as-parsed relative/smooth flags, curves that look smooth w.r.t. a no-longer-adjacent curve, every lattice chord x radii (too small / large) x rotation x flags, object-built shapes with sub-paths lacking their own move. The real library writes each in all nine (relative, smooth) modes and in seeded decimal units, re-parses, and must reproduce kinds, count and geometry to 12 significant digits (arc tolerance scaled by the F.6.6 conditioning).",
+   text="TLC checks the round-trip law on the writer/interpreter design for every behaviour of the bounded model and supplies the cases: behaviours with as-parsed relative/smooth flags, curves that look smooth w.r.t. a no-longer-adjacent curve, every lattice chord x radii (too small / large) x rotation x flags, object-built shapes with sub-paths lacking their own move. The real library writes each in all nine (relative, smooth) modes and in seeded decimal units, re-parses, and must reproduce kinds, count and geometry to 12 significant digits (arc tolerance scaled by the F.6.6 conditioning). Also long random conforming data (the generator of C01's TLC-validated traces) through all nine option pairs.",
    note="Trusted: TLC, PathWrite.tla/PathInterp.tla, unit-equivariance of interpretation, the comparator (~60 lines, incl. F.6.6 Lambda for the arc tolerance). Known finding: 6-digit '%G' radii (pinned by test_svg_example14). Arcs with |sweep| > tau are not written by the library and are not generated.",
    design="5/C07"),
  "C04": dict(
@@ -82,27 +82,27 @@ CHECKS = {
    design="5/C19"),
  "C15": dict(
    technique="TLA+ ArcLen (rational total variation of collinear Beziers, Pythagorean polylines, quarter-turn circles as multiples of pi, Walk(t) by cumulative length fractions, query/edit history machine) enumerated by TLC; replayed into length()/point(); invariance laws evaluated on MC_C02's segment table",
-   text="Exhaustive over every quadratic/cubic 1-D control tuple on 0..V with rational critical points along (1,0) and (3,4) (cusps, zero length, coincident controls) x 8 maps (isometries, scalings) x reversal x error settings 1e-4/1e-6/1e-9; circles of 1..4 quarter turns; polyline words with moves walked at t = j/8 (also as Polyline shapes); every history of <= MaxOps queries and edits (point(t) must be a function of the current segments); for all segments incl. generic curves: length unchanged by rotation/reflection/translation/reversal, scaled by |s|, chord <= length <= control polygon, path length = sum; and length(error=1e-4/1e-6/1e-9) against the defining integral of the speed evaluated by quadrature from the spec's exact segment data.",
+   text="Exhaustive over every quadratic/cubic 1-D control tuple on 0..V with rational critical points along (1,0) and (3,4) (cusps, zero length, coincident controls) x 8 maps (isometries, scalings) x reversal x error settings 1e-4/1e-6/1e-9; circles of 1..4 quarter turns; polyline words with moves walked at t = j/8 (also as Polyline shapes); every history of <= MaxOps queries and edits (point(t) must be a function of the current segments); for all segments incl. generic curves: length unchanged by rotation/reflection/translation/reversal, scaled by |s|, chord <= length <= control polygon, path length = sum; and length(error=1e-4/1e-6/1e-9) against the defining integral of the speed evaluated by quadrature from the spec's exact segment data. Also at coordinate magnitudes 1e5, 12345 and 1e-3, point walks of round shapes, scale-and-reify events in the history machine.",
    note="Trusted: TLC, ArcLen.tla, Rat.tla, and for generic curves a 20-line Gauss-Legendre quadrature of the spec's definition (a numeric comparator, not a TLC verdict; own error estimate <= 1e-11). Known findings: collinear cubics with a cusp ignore the requested error; generic cubics / non-circular arcs accumulate per-piece errors (~0.15 L (e/L)^(2/3)).",
    design="5/C15"),
  "C03": dict(
    technique="TLA+ DocCore (document walker as a fold of element tokens over inherited contexts: CTM, nearest viewport, display, use expansion) with Shapes/Viewport/PathOps; TLC enumerates every token prefix x caller configuration; each document serialised, parsed with reify True/False and compared shape by shape",
-   text="Every token prefix of <= MaxTok elements over the vocabulary (3 root svg variants incl. viewBox/preserveAspectRatio/own transform, g with transforms, nested svg with and without viewBox, defs, rect/circle/line/path/... with absolute, unit, percentage and omitted lengths and own transforms, use with x/y incl. use of a group, forward, chained and dangling references, display:none) x caller width/height/transform; the spec's rendered list (kind, user-space geometry, CTM) is the oracle for count, order, class and absolute geometry of the shapes the real parser returns, identically with and without reification.",
+   text="Every token prefix of <= MaxTok elements over the vocabulary (3 root svg variants incl. viewBox/preserveAspectRatio/own transform, g with transforms, nested svg with and without viewBox, defs, rect/circle/line/path/... with absolute, unit, percentage and omitted lengths and own transforms, use with x/y incl. use of a group, forward, chained and dangling references, display:none) x caller width/height/transform; the spec's rendered list (kind, user-space geometry, CTM) is the oracle for count, order, class and absolute geometry of the shapes the real parser returns, identically with and without reification. Beyond the exhaustive bound: TLC -simulate behaviours of 10 tokens, and seeded generated documents (varied units, percentages, viewBoxes, alignments, nesting; harness/docgen.py) on which TLC evaluates DocCore!RenderDoc as the oracle.",
    note="Trusted: TLC, DocCore/Shapes/Viewport/PathOps/Affine.tla, XML serialisation (docutil.py), the c06 geometry comparator. Reference cycles are excluded here (C10). rx/ry percentages, text/image/clipPath/pattern/symbol are outside the vocabulary.",
    design="5/C03"),
  "C14": dict(
    technique="TLA+ DocPaint (CSS cascade: inline > rules by specificity then order > presentation attribute; inheritance; currentColor; opacity) plugged into DocCore; TLC enumerates source subsets, rule orders, chains, use, currentColor, opacity cases; each parsed and its fill/stroke/stroke_width compared",
-   text="Exhaustive: 3 properties x all 128 subsets of the 7 sources x 2 rule orders on one element; 4^3 x 2^3 chains of depth 3 x 5 ancestor transforms (incl. rotation, negative determinant); use of a styled definition (own > use > ancestor); currentColor x where color comes from x caller colour; fill-/stroke-opacity by attribute / inline / inheritance. Fill and stroke are compared as RGBA (alpha from the opacity), stroke_width as the declared width and the effective width sw * sqrt|det CTM|.",
+   text="Exhaustive: 3 properties x all 128 subsets of the 7 sources x 2 rule orders on one element; 4^3 x 2^3 chains of depth 3 x 5 ancestor transforms (incl. rotation, negative determinant); use of a styled definition (own > use > ancestor); currentColor x where color comes from x caller colour; fill-/stroke-opacity by attribute / inline / inheritance. Fill and stroke are compared as RGBA (alpha from the opacity), stroke_width as the declared width and the effective width sw * sqrt|det CTM|. Also vector-effect (non-scaling stroke), display as a cascaded property, opacity 0, zero stroke width, several rules for one selector, and generated paint documents with random style sheets whose cascade TLC evaluates.",
    note="Trusted: TLC, DocPaint.tla, style-sheet text generation. vector-effect, descendant/attribute selectors, !important are not modelled. A transform that cannot be reified stays on the shape with the unscaled width: the effective width is what is compared then.",
    design="5/C14"),
  "C10": dict(
    technique="TLA+ DocFault over DocCore (expected = rendering of the document with the faulty elements removed; invariant RemovedIsBalanced) enumerated by TLC over documents x fault placements; each faulty document parsed in the default error mode and the shapes outside the faulty elements compared",
-   text="Every document of <= 3 distinct id-carrying elements below the root (g, nested svg, defs, rect, circle, path, polyline, image, use of group/shape) x every applicable fault on every element including the root: unclosed / unknown / under-supplied / unit-bearing transform functions, bad colours, garbage style text, garbage and negative lengths, truncated / short-arc / move-less / garbage path data, odd and garbage point lists, garbage and short viewBox, garbage preserveAspectRatio, bad image data, dangling, self and ancestor use references (two simultaneous faults in the thorough tier). SVG.parse must return within the time limit without any exception, and every shape outside the faulty elements' subtrees must be exactly what the fault-free remainder renders (ids, order, geometry).",
+   text="Every document of <= 3 distinct id-carrying elements below the root (g, nested svg, defs, rect, circle, path, polyline, image, use of group/shape) x every applicable fault on every element including the root: unclosed / unknown / under-supplied / unit-bearing transform functions, bad colours, garbage style text, garbage and negative lengths, truncated / short-arc / move-less / garbage path data, odd and garbage point lists, garbage and short viewBox, garbage preserveAspectRatio, bad image data, dangling, self and ancestor use references (two simultaneous faults in the thorough tier). SVG.parse must return within the time limit without any exception, and every shape outside the faulty elements' subtrees must be exactly what the fault-free remainder renders (ids, order, geometry). Also hand-made reference cycles of two and three ids (DocFault!CyclicUses), TLC -simulate documents of 6-9 tokens with up to 3 faults, and generated documents with 1-3 random faults whose reference rendering TLC evaluates.",
    note="Trusted: TLC, DocFault/DocCore.tla, the fault text table, XML serialisation. Faults in style-sheet text and ill-formed XML are excluded by the property. Shapes defined inside a faulty container but rendered through a use outside it are left open.",
    design="5/C10"),
  "C20": dict(
    technique="DocCore/DocPaint documents (TLC-enumerated, WriterLaw invariant: ctm * inverse(viewport) re-rendered inside the viewport is ctm) written by the real writer in every mode, checked for well-formedness, re-parsed and compared with the source tree; constructor-built trees from the spec's rendered shapes; second generation compared with the first",
-   text="Every 17th (quick) / 3rd (thorough) rendering geometry document of MC_C03 with its caller configuration and every 3rd paint document of MC_C14, parsed with reify True/False, written with string_xml, write_xml .svg and .svgz, read back (ElementTree well-formedness, then SVG.parse with reify True/False): same shape classes in the same order, sampled absolute geometry within the six-decimal matrix precision, same fill/stroke RGBA, effective stroke width and ids; write(parse(write(x))) renders like write(x). Built trees: Path shapes with full transforms (both determinant signs), paints incl. fully transparent colours, with and without viewBox.",
+   text="Every 17th (quick) / 3rd (thorough) rendering geometry document of MC_C03 with its caller configuration and every 3rd paint document of MC_C14, parsed with reify True/False, written with string_xml, write_xml .svg and .svgz, read back (ElementTree well-formedness, then SVG.parse with reify True/False): same shape classes in the same order, sampled absolute geometry within the six-decimal matrix precision, same fill/stroke RGBA, effective stroke width and ids; write(parse(write(x))) renders like write(x). Built trees: Path shapes with full transforms (both determinant signs), paints incl. fully transparent colours, with and without viewBox. Also generated documents (harness/docgen.py) rendered by TLC, taken through the same write / re-parse / second generation cycle.",
    note="Trusted: TLC, DocCore family, the sampling comparator (5 points per segment). The reference is the source tree's own rendering (its agreement with the spec is C03/C14). text/image payloads and pretty-printing whitespace are not compared.",
    design="5/C20"),
 }
